@@ -128,11 +128,11 @@ func (r *TextRenderer) renderCell(c cell, l int, w io.Writer) error {
 		var err error
 		switch {
 		case t.n.LessThan(decimal.Zero):
-			_, err = red.Fprintf(w, "%*s", l, s)
+			_, err = red.Fprintf(w, "%s", padLeft(s, l))
 		case t.n.Equal(decimal.Zero):
-			_, err = fmt.Fprintf(w, "%*s", l, "")
+			_, err = fmt.Fprintf(w, "%s", padLeft("", l))
 		case t.n.GreaterThan(decimal.Zero):
-			_, err = green.Fprintf(w, "%*s", l, s)
+			_, err = green.Fprintf(w, "%s", padLeft(s, l))
 		}
 		return err
 
@@ -149,6 +149,15 @@ func (r *TextRenderer) renderCell(c cell, l int, w io.Writer) error {
 		return err
 	}
 	return fmt.Errorf("%v is not a valid cell type", c)
+}
+
+// padLeft puts blanks in front of s until it is n runes wide (a width verb such
+// as %*s is rejected by fmt when the width exceeds 1e6).
+func padLeft(s string, n int) string {
+	if l := utf8.RuneCountInString(s); l < n {
+		return strings.Repeat(" ", n-l) + s
+	}
+	return s
 }
 
 func writeStrings(w io.Writer, s string, l int) error {
